@@ -2,8 +2,8 @@
 use parity_scale_codec::{Compact, Decode, Encode};
 #[derive(Encode, Decode)]
 pub enum T {
-	#[codec(skip)] #[codec(index = 0)] V0,
+	#[codec(index = 0)] #[codec(skip)] V0,
 	#[codec(skip)] #[codec(index = 2)] V1,
-	#[codec(skip)] #[codec(index = 0)] V2,
+	#[codec(index = 0)] #[codec(skip)] V2,
 }
 fn main() {}
